@@ -126,6 +126,7 @@ def gen_cases(rng, tier):
                     spec[t] = False
             # the component a boundary condition applies to differs between unknowns
             spec["bdim"] = rng.choice([None, 0, 1])
+            spec["bc"] = rng.choice(["dirichlet", "dirichlet", "neumann", "per_facet"])
             pu[f"u{i}"] = spec
         c["per_unknown"] = pu
         if rng.random() < 0.7:
